@@ -358,7 +358,7 @@ func parseH(l string) (hLine, bool) {
 
 // checkHistories groups the lines of one run by history, checks each with porcupine against
 // the model and replays the model to localise the first illegal step.
-func checkHistories(lines []string, withNew map[int]bool, visit func(prim int, st interface{})) (ok, illegal, unknown int, firstBad string) {
+func checkHistories(lines []string, withNew map[int]bool, visit func(prim int, st interface{})) (ok, illegal, unknown int, firstBad string, badLine *hLine) {
 	byHist := map[int][]hLine{}
 	var order []int
 	for _, l := range lines {
@@ -393,6 +393,8 @@ func checkHistories(lines []string, withNew map[int]bool, visit func(prim int, s
 					good, next := step(st, h.In, h.Out)
 					if !good {
 						fmt.Fprintf(&b, "  ILLEGAL in state %s: %s\n", describeState(prim, st), h.Raw)
+						hc := h
+						badLine = &hc
 						break
 					}
 					fmt.Fprintf(&b, "  %s\n", h.Raw)
@@ -468,7 +470,7 @@ func runNosync(c *core.Ctx, ns *nosyncStats, j *nosyncJob) {
 		for i := 0; i < len(jsH.Lines) && i < len(refH.Lines); i++ {
 			if jsH.Lines[i] != refH.Lines[i] {
 				if h, ok := parseH(jsH.Lines[i]); ok {
-					key = "nosync." + primNames[h.Prim] + "." + h.In.Op + "/vs-sync"
+					key = stepKey(h) + "/vs-sync"
 				}
 				break
 			}
@@ -480,7 +482,7 @@ func runNosync(c *core.Ctx, ns *nosyncStats, j *nosyncJob) {
 	// (ii) every history against the sequential model, with porcupine
 	ns.mu.Lock()
 	defer ns.mu.Unlock()
-	okN, illN, unkN, badN := checkHistories(ref.Lines, withNew, nil)
+	okN, illN, unkN, badN, _ := checkHistories(ref.Lines, withNew, nil)
 	ns.porcNativeOK += okN
 	ns.porcNativeIllegal += illN
 	if illN > 0 {
@@ -488,7 +490,7 @@ func runNosync(c *core.Ctx, ns *nosyncStats, j *nosyncJob) {
 		c.Inconclusive("model-rejects-native-sync-history")
 		fmt.Printf("c13: model rejects a history of package sync (%d, unknown %d):\n%s", illN, unkN, badN)
 	}
-	okJ, illJ, unkJ, badJ := checkHistories(js.Lines, withNew, func(prim int, st interface{}) {
+	okJ, illJ, unkJ, badJ, badLine := checkHistories(js.Lines, withNew, func(prim int, st interface{}) {
 		ns.states[describeState(prim, st)] = true
 	})
 	ns.porcOK += okJ
@@ -499,12 +501,8 @@ func runNosync(c *core.Ctx, ns *nosyncStats, j *nosyncJob) {
 	}
 	if illJ > 0 && illN == 0 {
 		key := "nosync/model"
-		for _, l := range strings.Split(badJ, "\n") {
-			if i := strings.Index(l, ": "); strings.Contains(l, "ILLEGAL") && i >= 0 {
-				if h, ok := parseH(strings.TrimSpace(l[strings.LastIndex(l, ": ")+2:])); ok {
-					key = "nosync." + primNames[h.Prim] + "." + h.In.Op + "/model"
-				}
-			}
+		if badLine != nil {
+			key = stepKey(*badLine) + "/model"
 		}
 		c.Violate(key, fmt.Sprintf("%s: %d histor(ies) of nosync under GopherJS are not legal for the sequential model of the primitive (porcupine: Illegal); first:\n%s", j.name, illJ, badJ),
 			bundle(map[string]string{"js.out": js.String(), "ref.out": ref.String(), "illegal.txt": badJ}))
@@ -540,14 +538,24 @@ func runNosync(c *core.Ctx, ns *nosyncStats, j *nosyncJob) {
 			c.Inconclusive("js-only-step-not-executed")
 		}
 	}
-	if len(js.Lines) > 0 && len(hists) > 0 {
-		for _, l := range js.Lines {
+	if n := len(js.Lines); n > 3 {
+		c.Sample(js.Lines[n/3])
+		for _, l := range js.Lines[n/2:] {
 			if strings.HasPrefix(l, "J ") {
 				c.Sample(l)
 				break
 			}
 		}
 	}
+}
+
+// stepKey is the stable identity of a failing step: primitive and operation (the unhashable map
+// key is one case whatever the operation).
+func stepKey(h hLine) string {
+	if h.Prim == pMap && h.In.A == len(keyNames)-1 && h.In.Op != "Range" && h.In.Op != "RangeStop" {
+		return "nosync.map.unhashable-key"
+	}
+	return "nosync." + primNames[h.Prim] + "." + h.In.Op
 }
 
 func clipMsg(s string) string {
